@@ -17,6 +17,9 @@ fn main() {
             "condvar/oneshot wake-up paths (sync.rs, tokio.rs) are only exercised by E7, i.e. sampled",
         ],
         |s| {
+            // the channel promises never to block its callers: a case that does not return is a violation
+            s.hang_is_violation(120);
+            s.require("self-reported-metrics", 2000);
         s.require("send-between-handoff-and-resolution", 2000);
         s.require("retry", 2000);
         s.require("truncation", 2000);
